@@ -1,3 +1,6 @@
 import BioCantor.Base
 import BioCantor.Spec.Location
 import BioCantor.Model.Location
+import BioCantor.GenPrelude
+import BioCantor.Gen.Tables
+import BioCantor.Gen.Kernels
